@@ -4,6 +4,10 @@
  *        h_float sweep <lo> <hi>       (all single patterns with top byte lo..hi, class rule, prints mismatches only) */
 #include <math.h>
 #include "vh.h"
+#if defined(__x86_64__) || defined(__i386__)
+#include <xmmintrin.h>
+#define HAVE_MXCSR 1
+#endif
 
 static long nlines;
 
@@ -113,6 +117,19 @@ int main(int argc, char** argv) {
   if (!strcmp(argv[1], "sweep")) return sweep((unsigned)atoi(argv[2]), (unsigned)atoi(argv[3]));
   int thorough = !strcmp(argv[1], "thorough");
   for (unsigned h = 0; h < 65536; h++) one(2, h);
+#ifdef HAVE_MXCSR
+  /* the same patterns with the FPU in flush-to-zero / denormals-are-zero mode (as set by -ffast-math start-up code, audio and game
+   * engines): a half is never a subnormal single, so an exact decoder and encoder do not depend on that mode */
+  {
+    unsigned saved = _mm_getcsr();
+    _mm_setcsr(saved | 0x8040u);
+    for (unsigned h = 0; h < 65536; h++) {
+      unsigned e = (h >> 10) & 31;
+      if (e <= 2 || e >= 29 || h % 16 == 5) one(2, h);
+    }
+    _mm_setcsr(saved);
+  }
+#endif
   /* singles: every exponent x boundary mantissas x sign, strided, random */
   static const uint32_t mants[] = {0, 1, 2, 0x000fff, 0x001000, 0x001fff, 0x002000, 0x002001, 0x3fffff, 0x400000, 0x400001, 0x7fffff, 0x555555, 0x2aaaaa};
   for (unsigned s = 0; s < 2; s++)
